@@ -85,6 +85,142 @@ def run_forked(mod: Any, env: Any, case: dict[str, Any], timeout: float = 300.0,
     return json.loads(buf.decode())
 
 
+class Zygote:
+    """
+    A process forked from the worker right after set-up that does nothing but fork one child per
+    run. The child - not the zygote, not the worker - reads the case from a pipe, so the heap a
+    run starts from is a function of the case alone (the worker's own heap depends on every case
+    it has generated; object addresses, and with them `id()`-keyed state in the code under test,
+    would otherwise differ between a batch run and its replay).
+    """
+
+    def __init__(self, mod: Any, env: Any) -> None:
+        self.ctl_r, self.ctl_w = os.pipe()
+        self.data_r, self.data_w = os.pipe()
+        self.info_r, self.info_w = os.pipe()
+        self.res_r, self.res_w = os.pipe()
+        self.alive = True
+        sys.__stdout__.flush()
+        self.pid = os.fork()
+        if self.pid == 0:
+            try:
+                for fd in (self.ctl_w, self.data_w, self.info_r, self.res_r):
+                    os.close(fd)
+                self._serve(mod, env)
+            finally:
+                os._exit(0)
+        for fd in (self.ctl_r, self.data_r, self.info_w, self.res_w):
+            os.close(fd)
+
+    @staticmethod
+    def _readn(fd: int, n: int) -> bytes:
+        buf = bytearray()
+        while len(buf) < n:
+            chunk = os.read(fd, min(1 << 16, n - len(buf)))
+            if not chunk:
+                raise EOFError
+            buf += chunk
+        return bytes(buf)
+
+    def _serve(self, mod: Any, env: Any) -> None:
+        while True:
+            b = os.read(self.ctl_r, 1)
+            if not b:
+                return
+            pid = os.fork()
+            if pid == 0:
+                code = 0
+                try:
+                    hdr = self._readn(self.data_r, 17)
+                    n, timeout, want_trace = int.from_bytes(hdr[:8], "little"), int.from_bytes(hdr[8:16], "little"), hdr[16]
+                    faulthandler.dump_traceback_later(max(5.0, timeout - 5.0), exit=True, file=sys.__stderr__)
+                    try:
+                        case = json.loads(self._readn(self.data_r, n))
+                        res = mod.run_case(env, case, want_trace=True) if want_trace else mod.run_case(env, case)
+                    except BaseException:  # noqa: BLE001
+                        res = {"verdict": "harness_error", "trace": traceback.format_exc(), "digest": "", "counters": {}}
+                    data = json.dumps(res, default=core._default).encode()
+                    data = len(data).to_bytes(8, "little") + data
+                    off = 0
+                    while off < len(data):
+                        off += os.write(self.res_w, data[off : off + 65536])
+                except BaseException:  # noqa: BLE001
+                    code = 3
+                finally:
+                    os._exit(code)
+            os.write(self.info_w, pid.to_bytes(8, "little"))
+            _, status = os.waitpid(pid, 0)
+            os.write(self.info_w, (status & 0xFFFFFFFF).to_bytes(8, "little"))
+
+    def run(self, case: dict[str, Any], timeout: float, want_trace: bool) -> dict[str, Any]:
+        import select
+        import signal
+
+        payload = json.dumps(case, default=core._default).encode()
+        os.write(self.ctl_w, b"x")
+        pid = int.from_bytes(self._readn(self.info_r, 8), "little")
+        msg = len(payload).to_bytes(8, "little") + int(timeout).to_bytes(8, "little") + bytes([1 if want_trace else 0]) + payload
+        deadline = time.time() + timeout
+        buf = bytearray()
+        need: int | None = None
+        status: int | None = None
+        off = 0
+        timed_out = False
+        while True:
+            left = deadline - time.time()
+            if left <= 0:
+                timed_out = True
+                break
+            wl = [self.data_w] if off < len(msg) else []
+            rl, wl2, _ = select.select([self.res_r, self.info_r], wl, [], min(left, 5.0))
+            if wl2:
+                off += os.write(self.data_w, msg[off : off + 65536])
+            if self.res_r in rl:
+                chunk = os.read(self.res_r, 1 << 16)
+                buf += chunk
+                if need is None and len(buf) >= 8:
+                    need = int.from_bytes(buf[:8], "little")
+            if self.info_r in rl:
+                status = int.from_bytes(self._readn(self.info_r, 8), "little")
+            if need is not None and len(buf) >= 8 + need and status is not None:
+                break
+            if status is not None and not (self.res_r in rl) and (need is None or len(buf) < 8 + need):
+                # the child is gone; whatever it wrote is already in the pipe
+                r2, _, _ = select.select([self.res_r], [], [], 0)
+                if not r2:
+                    break
+        if timed_out:
+            # the pipes may hold half a message: this zygote is not used again
+            self.alive = False
+            for p_ in (pid, self.pid):
+                try:
+                    os.kill(p_, signal.SIGKILL)
+                except OSError:
+                    pass
+            try:
+                os.waitpid(self.pid, 0)
+            except OSError:
+                pass
+            return {"verdict": "harness_error", "trace": f"run exceeded {timeout}s wall and was killed", "digest": "", "counters": {}}
+        if need is None or len(buf) < 8 + need:
+            if off < len(msg):
+                self.alive = False  # unread payload left in the pipe
+            return {"verdict": "harness_error", "trace": f"run child produced no result (wait status {status})", "digest": "", "counters": {}}
+        return json.loads(bytes(buf[8 : 8 + need]).decode())
+
+    def close(self) -> None:
+        for fd in (self.ctl_w, self.data_w, self.info_r, self.res_r):
+            try:
+                os.close(fd)
+            except OSError:
+                pass
+        if self.alive:
+            try:
+                os.waitpid(self.pid, 0)
+            except OSError:
+                pass
+
+
 def load_check(check: str) -> Any:
     return importlib.import_module(f"dst.check_{check.lower()}")
 
@@ -115,8 +251,17 @@ def main(argv: list[str] | None = None) -> int:
         emit({"harness_error": "setup failed", "trace": traceback.format_exc()})
         return 2
 
+    zyg: Zygote | None = None
     if getattr(mod, "FORK_PER_RUN", True):
-        env.run = lambda case, want_trace=False: run_forked(mod, env, case, a.run_timeout, want_trace)
+        zyg = Zygote(mod, env) if os.environ.get("VERIF_NO_ZYGOTE") != "1" else None
+        env.zygote = zyg
+
+        def _run(case: dict[str, Any], want_trace: bool = False) -> dict[str, Any]:
+            if zyg is not None and zyg.alive:
+                return zyg.run(case, a.run_timeout, want_trace)
+            return run_forked(mod, env, case, a.run_timeout, want_trace)
+
+        env.run = _run
     else:
         env.run = lambda case, want_trace=False: (mod.run_case(env, case, want_trace=True) if want_trace else mod.run_case(env, case))
     try:
@@ -126,6 +271,8 @@ def main(argv: list[str] | None = None) -> int:
             return _minimise(mod, env, a)
         return _batch(mod, env, a)
     finally:
+        if zyg is not None:
+            zyg.close()
         env.close()
 
 
@@ -147,7 +294,7 @@ def _batch(mod: Any, env: Any, a: Any) -> int:
         for i in chunk:
             rs = core.derive_seed(a.seed, a.check, a.tier, i)
             cases.append((i, rs, mod.gen_case(rs, a.tier, index=i) if getattr(mod, "GEN_TAKES_INDEX", False) else mod.gen_case(rs, a.tier)))
-        if hasattr(mod, "prepare"):
+        if hasattr(mod, "prepare") and getattr(env, "zygote", None) is None:
             mod.prepare(env, [c for _, _, c in cases])
         for i, rs, case in cases:
             if a.deadline and time.time() > a.deadline:
@@ -200,7 +347,7 @@ def _minimise(mod: Any, env: Any, a: Any) -> int:
 def _replay(mod: Any, env: Any, a: Any) -> int:
     with open(a.replay) as f:
         v = json.load(f)
-    if hasattr(mod, "prepare"):
+    if hasattr(mod, "prepare") and getattr(env, "zygote", None) is None:
         mod.prepare(env, [v["case"]])
     res = env.run(v["case"], True)
     same = res["verdict"] == "violation" and res["fingerprint"] == v["fingerprint"]
